@@ -527,34 +527,11 @@ fn emit_trace(
         }
     }
     // ---- real recoveries in child processes
-    let results = recover_images(&cuts, keys, ttl, dir, o.num("jobs", 6));
+    let results = recover_images(&cuts, keys, ttl, dir, o.num("jobs", 6), nested_max > 0);
     // ---- splice rec events
     let mut by_event: HashMap<usize, Vec<Value>> = HashMap::new();
     for (c, r) in cuts.iter().zip(results.iter()) {
-        let kv: Vec<i64> = keys.iter().enumerate().map(|(i, _)| {
-            match r["recs"].get(i) {
-                Some(x) if x["p"].as_bool() == Some(true) => {
-                    let ts = x["ts"].as_u64().unwrap();
-                    let exp = x["exp"].as_u64().unwrap();
-                    let hash = x["vhash"].as_u64().unwrap();
-                    let vlen = x["vlen"].as_u64().unwrap() as usize;
-                    let mut g: i64 = -1;
-                    for gi in &gens.gens {
-                        if gi.kid == i + 1 && gi.ts == ts && gi.exp == exp && gi.value.len() == vlen && L::hash64(&gi.value) == hash {
-                            g = gi.id as i64;
-                        }
-                    }
-                    g
-                }
-                _ => 0,
-            }
-        }).collect();
-        let ev = json!({"e": "rec", "units": c.units.iter().map(|(a, b)| vec![*a, *b]).collect::<Vec<_>>(),
-            "now": rk(c.now),
-            "res": {"ok": r["ok"], "err": r["err"], "kv": kv, "len": r["len"], "extra": r["extra"],
-                    "at": keys.iter().enumerate().map(|(i, _)| r["recs"].get(i).and_then(|x| x["at"].as_u64()).unwrap_or(0)).collect::<Vec<_>>(),
-                    "free": r.get("free").cloned().unwrap_or(json!([]))}});
-        by_event.entry(c.at_event).or_default().push(ev);
+        by_event.entry(c.at_event).or_default().push(rec_event(c, r, keys, &gens, &rk));
     }
     let mut out = std::io::BufWriter::new(std::fs::File::create(out_path).expect("create out"));
     let mut n_out = 0;
@@ -569,15 +546,76 @@ fn emit_trace(
         }
     }
     out.flush().unwrap();
+    let mut nested_files = 0;
+    let mut nested_images = 0;
+    if nested_max > 0 {
+        // C04: cut recovery's own writes and recover again
+        let mut picked = 0;
+        let mut seen_logs: std::collections::HashSet<String> = std::collections::HashSet::new();
+        for (ci, (c, r)) in cuts.iter().zip(results.iter()).enumerate() {
+            if picked >= nested_max { break; }
+            let wl = match r.get("wlog").and_then(|w| w.as_array()) { Some(w) if !w.is_empty() => w, _ => continue };
+            if r["ok"].as_bool() != Some(true) { continue; }
+            let sig: String = wl.iter().map(|w| format!("{}{}", w["k"].as_str().unwrap_or(""), w["s"].as_u64().unwrap_or(0))).collect();
+            if !seen_logs.insert(format!("{}:{}", sig, r["len"])) { continue; }
+            let base = match std::fs::read(&c.img) { Ok(b) => b, Err(_) => continue };
+            let mut ev2: Vec<Value> = Vec::new();
+            ev2.push(json!({"e": "init", "ds": 16, "de": total_blocks, "fmt": fmt, "ttl": ttl, "nk": keys.len(),
+                            "now": rk(c.now), "cc": true}));
+            for g in &gens.gens {
+                ev2.push(json!({"e": "gen", "g": g.id, "k": g.kid, "ts": rk(g.ts), "exp": rk(g.exp), "n": g.blocks}));
+            }
+            ev2.push(json!({"e": "image", "img": absdev::classify_image(&base, fmt, &gens)}));
+            let mut dev2 = ConcreteDev::new(base.len());
+            dev2.durable = base.clone();
+            let mut cuts2: Vec<Cut> = Vec::new();
+            for w in wl {
+                if w["k"] == "w" {
+                    let data = absdev::unhex(w["hex"].as_str().unwrap_or(""));
+                    let sec = w["s"].as_u64().unwrap_or(0);
+                    dev2.write(sec, &data);
+                    ev2.push(json!({"e": "w", "w": absdev::classify_write(sec, &data, fmt, total_blocks, &gens)}));
+                } else {
+                    dev2.fsync();
+                    ev2.push(json!({"e": "fsync"}));
+                }
+                for s in absdev::subsets(&dev2.units(), max_exh) {
+                    if cuts2.len() >= 400 { break; }
+                    let p = format!("{dir}/n{ci}_{}.bin", cuts2.len());
+                    std::fs::write(&p, dev2.image(&s)).expect("write nested image");
+                    cuts2.push(Cut { at_event: ev2.len() - 1, now: c.now, units: s, img: p });
+                }
+            }
+            let res2 = recover_images(&cuts2, keys, ttl, dir, o.num("jobs", 6), false);
+            let mut by2: HashMap<usize, Vec<Value>> = HashMap::new();
+            for (c2, r2) in cuts2.iter().zip(res2.iter()) {
+                by2.entry(c2.at_event).or_default().push(rec_event(c2, r2, keys, &gens, &rk));
+            }
+            let np = format!("{}.nested{}.ndjson", out_path.trim_end_matches(".ndjson"), picked);
+            let mut f = std::io::BufWriter::new(std::fs::File::create(&np).expect("nested out"));
+            for (i, ev) in ev2.iter().enumerate() {
+                writeln!(f, "{}", ev).unwrap();
+                if let Some(v) = by2.get(&i) {
+                    for r in v { writeln!(f, "{}", r).unwrap(); }
+                }
+            }
+            f.flush().unwrap();
+            for c2 in &cuts2 { let _ = std::fs::remove_file(&c2.img); }
+            nested_images += cuts2.len();
+            nested_files += 1;
+            picked += 1;
+        }
+    }
     for c in &cuts {
         let _ = std::fs::remove_file(&c.img);
     }
+    println!("{}", json!({"nested_traces": nested_files, "nested_images": nested_images}));
     println!("{}", json!({"events": n_out, "images": cuts.len(), "gens": gens.gens.len(),
         "max_pending_units": stats_pending_max, "flushes": flushes.len(), "calls": calls.len()}));
     0
 }
 
-fn recover_images(cuts: &[Cut], keys: &[Vec<u8>], ttl: bool, dir: &str, jobs: usize) -> Vec<Value> {
+fn recover_images(cuts: &[Cut], keys: &[Vec<u8>], ttl: bool, dir: &str, jobs: usize, writes: bool) -> Vec<Value> {
     let exe = std::env::current_exe().expect("current exe");
     let chunk = 40;
     let groups: Vec<&[Cut]> = cuts.chunks(chunk).collect();
@@ -592,7 +630,7 @@ fn recover_images(cuts: &[Cut], keys: &[Vec<u8>], ttl: bool, dir: &str, jobs: us
             let list = format!("{dir}/list_{gi}.json");
             let outp = format!("{dir}/res_{gi}.json");
             let items: Vec<Value> = g.iter().map(|c| json!({"img": c.img, "now": c.now})).collect();
-            std::fs::write(&list, serde_json::to_string(&json!({"ttl": ttl, "items": items,
+            std::fs::write(&list, serde_json::to_string(&json!({"ttl": ttl, "items": items, "writes": writes,
                 "keys": keys.iter().map(|k| String::from_utf8_lossy(k).to_string()).collect::<Vec<_>>()})).unwrap()).unwrap();
             let child = std::process::Command::new(&exe)
                 .args(["recover", "--list", &list, "--out", &outp])
@@ -630,8 +668,15 @@ pub fn recover_main(args: &[String]) -> i32 {
     let mut out = std::io::BufWriter::new(std::fs::File::create(o.req("out")).expect("out"));
     crate::util::watchdog::start(30);
     for item in list["items"].as_array().unwrap() {
-        let img = item["img"].as_str().unwrap();
+        let orig = item["img"].as_str().unwrap();
+        let work = format!("{orig}.work");
+        let _ = std::fs::copy(orig, &work);
+        let img = work.as_str();
         crate::util::watchdog::beat(img);
+        let want_writes = list["writes"].as_bool().unwrap_or(false);
+        if want_writes {
+            obs::install();
+        }
         feoxdb::verif::set_now(item["now"].as_u64().unwrap());
         let size = std::fs::metadata(img).map(|m| m.len()).unwrap_or(0);
         let res = std::panic::catch_unwind(|| {
@@ -668,8 +713,45 @@ pub fn recover_main(args: &[String]) -> i32 {
                 line
             }
         };
+        let mut line = line;
+        if want_writes {
+            obs::uninstall();
+            let wl: Vec<Value> = obs::take().iter().filter_map(|e| match e.kind {
+                "w" => Some(json!({"k": "w", "s": e.a, "hex": absdev::hex(&e.data)})),
+                "fsync" => Some(json!({"k": "f"})),
+                _ => None,
+            }).collect();
+            line["wlog"] = json!(wl);
+        }
+        let _ = std::fs::remove_file(&work);
         writeln!(out, "{}", line).unwrap();
     }
     out.flush().unwrap();
     0
+}
+
+fn rec_event(c: &Cut, r: &Value, keys: &[Vec<u8>], gens: &GenTable, rk: &dyn Fn(u64) -> usize) -> Value {
+    let kv: Vec<i64> = keys.iter().enumerate().map(|(i, _)| {
+        match r["recs"].get(i) {
+            Some(x) if x["p"].as_bool() == Some(true) => {
+                let ts = x["ts"].as_u64().unwrap();
+                let exp = x["exp"].as_u64().unwrap();
+                let hash = x["vhash"].as_u64().unwrap();
+                let vlen = x["vlen"].as_u64().unwrap() as usize;
+                let mut g: i64 = -1;
+                for gi in &gens.gens {
+                    if gi.kid == i + 1 && gi.ts == ts && gi.exp == exp && gi.value.len() == vlen && L::hash64(&gi.value) == hash {
+                        g = gi.id as i64;
+                    }
+                }
+                g
+            }
+            _ => 0,
+        }
+    }).collect();
+    json!({"e": "rec", "units": c.units.iter().map(|(a, b)| vec![*a, *b]).collect::<Vec<_>>(),
+        "now": rk(c.now),
+        "res": {"ok": r["ok"], "err": r["err"], "kv": kv, "len": r["len"], "extra": r["extra"],
+                "at": keys.iter().enumerate().map(|(i, _)| r["recs"].get(i).and_then(|x| x["at"].as_u64()).unwrap_or(0)).collect::<Vec<_>>(),
+                "free": r.get("free").cloned().unwrap_or(json!([]))}})
 }
